@@ -326,7 +326,7 @@ theorem respondDyn_calls (s : St) (n : Nat) : (respondDyn s n).calls = s.calls :
 theorem respondWith_phase (s : St) (o : List Out) : (respondWith s o).phase = .done := by
   unfold respondWith; split <;> rfl
 
-def isTitanLine (line : List Char) : Bool := "titan://".toList.isPrefixOf line
+def isTitanLine (line : List Char) : Bool := titanLit.isPrefixOf line
 
 /-- the request line the server accepted for dispatch: at most 1024 bytes with its CRLF, valid UTF-8,
     and either a gemini URL `parse_url` accepts or — only when uploads are enabled — a titan line with a
